@@ -25,6 +25,6 @@ package middleware
 //@ func AgentUniqueIdentifierHeaderValidator$1
 //@   ensures [missing-403] hdr(old(r.Header), handler.LambdaAgentIdentifier) == "" ==> delta(AgentId403Missing) == 1 && delta(ForwardToHandler) == 0
 //@   ensures [not-forwarded-means-403] delta(ForwardToHandler) == 0 ==> delta(AgentId403Missing) + delta(AgentId403Invalid) == 1
-//@   ensures [invalid-403] delta(ForwardToHandler) == 0 && hdr(old(r.Header), handler.LambdaAgentIdentifier) != "" ==> delta(AgentId403Invalid) == 1 && delta(UuidParseFailed) == 1
-//@   ensures [forwarded-only-for-an-identifier-in-the-notation-it-was-issued-in] delta(ForwardToHandler) >= 1 ==> foldEq(hdr(old(r.Header), handler.LambdaAgentIdentifier), uuidString(lastret(UuidParseOK)))
+//@   ensures [invalid-403] delta(ForwardToHandler) == 0 && hdr(old(r.Header), handler.LambdaAgentIdentifier) != "" ==> delta(AgentId403Invalid) == 1
+//@   ensures [forwarded-only-for-an-identifier-in-the-notation-it-was-issued-in] delta(ForwardToHandler) >= 1 ==> foldEq(hdr(old(r.Header), handler.LambdaAgentIdentifier), uuidString(firstret(UuidParseOK)))
 //@   ensures [forwarded-only-after-successful-parse] delta(ForwardToHandler) >= 1 ==> hdr(old(r.Header), handler.LambdaAgentIdentifier) != "" && delta(UuidParseOK) >= 1 && first(UuidParseOK) < first(ForwardToHandler)
